@@ -580,15 +580,11 @@ func (f *FnEnc) applyContract(spec *FuncSpec, sig *types.Signature, name string,
 	if !spec.Pure {
 		f.checkEscapes(args, name)
 	}
-	// frame
-	if !spec.HasAssigns {
-		f.st = e.havocState(f.st, nil)
-	} else {
-		f.st = f.st.clone()
-		for _, tg := range f.assignTargets(spec, ctx) {
-			f.havocTarget(tg)
-		}
+	// results first: assigns clauses may mention them (e.g. a ghost attribute of the new object)
+	oldAlloc := f.st.Alloc
+	if spec.HasAssigns {
 		// the callee may allocate
+		f.st = f.st.clone()
 		na := e.freshConst("alloc", SInt)
 		e.fact(tLe(f.st.Alloc, na))
 		f.st.Alloc = na
@@ -600,6 +596,16 @@ func (f *FnEnc) applyContract(spec *FuncSpec, sig *types.Signature, name string,
 	}
 	if res != nil {
 		bindResults(sig, res, post)
+	}
+	_ = oldAlloc
+	// frame
+	if !spec.HasAssigns {
+		f.st = e.havocState(f.st, nil)
+	} else {
+		actx := &SpecCtx{e: e, f: f, vars: post, st: pre, old: pre, pkg: f.pkgOf(spec), srcArgs: ctx.srcArgs}
+		for _, tg := range f.assignTargets(spec, actx) {
+			f.havocTarget(tg)
+		}
 	}
 	ctx2 := &SpecCtx{e: e, f: f, vars: post, st: f.st, old: pre, pkg: f.pkgOf(spec)}
 	for _, c := range spec.Ensures {
